@@ -166,14 +166,22 @@ func (REM) Generate(seed uint64, tier string) *core.Scenario {
 			if r.Chance(1, 6) {
 				st.N = r.Range(30, 120) // a bigger commit: several chunks per tree level
 			}
-		case x < 40:
+		case x < 38:
 			st.Op = "branch"
-		case x < 44:
+		case x < 41:
+			st.Op, transfer = "tagpush", true
+		case x < 43:
+			st.Op = "delremote"
+		case x < 46:
+			st.Op, transfer = "backup", true
+		case x < 47:
+			st.Op, transfer = "restore", true
+		case x < 49:
 			st.Op = "conflict" // both sides get a row with the same key and different contents
-		case x < 64:
+		case x < 66:
 			st.Op, transfer = "push", true
 			st.Force = r.Chance(1, 5)
-		case x < 75:
+		case x < 76:
 			st.Op, transfer = "fetch", true
 		case x < 87:
 			st.Op, transfer = "pull", true
@@ -342,28 +350,31 @@ type remDB struct {
 }
 
 type remRun struct {
-	ctx     context.Context
-	res     *core.Result
-	w       *World
-	sos     *simos.OS
-	b       *RemBody
-	sc      *core.Scenario
-	root    string
-	url     string
-	remDir  string // absolute directory of the remote's store
-	remRel  string
-	hub     *hub
-	net     *simnet.Net
-	dbs     []*remDB
-	remote  map[string]string   // model of the remote's branches
-	parents map[string][]string // commit DAG (union over every database)
-	nextPK  int
-	nClone  int
-	step    int
-	netRate int
-	netSeed uint64
-	events  []string          // semantic log: one line per step, commits named by where they first appeared
-	labels  map[string]string // commit hash -> label
+	ctx            context.Context
+	res            *core.Result
+	w              *World
+	sos            *simos.OS
+	b              *RemBody
+	sc             *core.Scenario
+	root           string
+	url            string
+	remDir         string // absolute directory of the remote's store
+	remRel         string
+	hub            *hub
+	net            *simnet.Net
+	dbs            []*remDB
+	remote         map[string]string   // model of the remote's branches
+	parents        map[string][]string // commit DAG (union over every database)
+	nextPK         int
+	nClone         int
+	step           int
+	netRate        int
+	netSeed        uint64
+	remoteTags     map[string]string            // model of the remote's tags (name -> commit)
+	backedUp       map[string]map[string]string // database -> branch heads at its last successful backup sync
+	nTag, nRestore int
+	events         []string          // semantic log: one line per step, commits named by where they first appeared
+	labels         map[string]string // commit hash -> label
 }
 
 // label names a commit independently of its hash (hashes contain timestamps, and the retry back-off
@@ -419,7 +430,7 @@ func (REM) Execute(t *testing.T, sc *core.Scenario) *core.Result {
 	doltdb.DsimPullTargetFileSize = b.TargetSize
 	defer func() { doltdb.DsimPullTargetFileSize = oldTarget }()
 
-	x := &remRun{ctx: ctx, res: res, sos: sos, b: &b, sc: sc, root: root, remote: map[string]string{}, parents: map[string][]string{}, nextPK: 100, labels: map[string]string{}}
+	x := &remRun{ctx: ctx, res: res, sos: sos, b: &b, sc: sc, root: root, remote: map[string]string{}, parents: map[string][]string{}, nextPK: 100, labels: map[string]string{}, remoteTags: map[string]string{}, backedUp: map[string]map[string]string{}}
 	x.net = &simnet.Net{}
 	x.net.Decide = x.netDecide
 	oldHTTP := dbfactory.DBFactories[dbfactory.HTTPScheme]
@@ -691,6 +702,26 @@ func (x *remRun) verify(what string, st *RemStep, allowed map[string][]string) {
 			delete(x.remote, br)
 		}
 	}
+	if tags, terr := rdb.GetTagsWithHashes(x.ctx); terr == nil {
+		got := map[string]string{}
+		for _, t := range tags {
+			got[t.Tag.Name] = t.Hash.String()
+		}
+		for _, name := range sortedBranches(x.remoteTags) {
+			if got[name] != x.remoteTags[name] {
+				res.Violate("remote-tag-wrong", key, x.step, "tag %s was pushed at commit %s; the remote has it at %q after %s", name, x.remoteTags[name], got[name], what)
+			}
+		}
+		for _, name := range sortedBranches(got) {
+			if _, ok := x.remoteTags[name]; !ok {
+				if alts := allowed["tag:"+name]; len(alts) > 0 && alts[0] == got[name] {
+					x.remoteTags[name] = got[name]
+				} else {
+					res.Violate("remote-tag-invented", key, x.step, "the remote has tag %s (at %s) after %s; no acknowledged push put it there", name, got[name], what)
+				}
+			}
+		}
+	}
 	if vs, ok := rdb.ValueReadWriter().(*types.ValueStore); ok {
 		n, bad, err := walkStore(x.ctx, vs)
 		if err != nil {
@@ -882,6 +913,29 @@ func (x *remRun) doStep(st *RemStep) {
 		return
 	}
 
+	if st.Op == "delremote" {
+		// delete a remote branch (never main) by pushing the empty source ref
+		for _, br := range sortedBranches(x.remote) {
+			if br == "main" {
+				continue
+			}
+			s := x.session(d)
+			if s == nil {
+				return
+			}
+			if _, err := s.Exec(x.ctx, "CALL dolt_push('origin', ':"+br+"')"); err == nil {
+				delete(x.remote, br)
+				res.Probe("remote_branch_deleted")
+				x.event("delremote ok")
+			} else {
+				res.Probe("remote_branch_delete_refused")
+			}
+			x.refresh()
+			x.verify("remote branch deletion", st, nil)
+			break
+		}
+		return
+	}
 	// transfers
 	if !x.refresh() {
 		return
@@ -1011,6 +1065,141 @@ func (x *remRun) doStep(st *RemStep) {
 		x.localUnchanged(d, before[d.name], "pull", br)
 		x.verify("pull", st, nil)
 		x.crashImages(st, positions, d.dir, true, nil)
+	case "tagpush":
+		x.nTag++
+		name := fmt.Sprintf("v%d", x.nTag)
+		if _, err := s.Exec(x.ctx, "CALL dolt_tag('"+name+"')"); err != nil {
+			res.Probe("tag_refused")
+			return
+		}
+		rows, err := s.Exec(x.ctx, "SELECT tag_hash FROM dolt_tags WHERE tag_name = '"+name+"'")
+		if err != nil || len(rows) != 1 {
+			res.Probe("tag_unreadable")
+			return
+		}
+		at := rows[0][0]
+		disarm := x.armFault(st.Fault, x.remRel)
+		_, err = s.Exec(x.ctx, "CALL dolt_push('origin', '"+name+"')")
+		fired, positions := disarm()
+		x.noteFault(st.Fault, fired)
+		if err == nil {
+			res.Probe("transfer_ok")
+			res.Probe("tag_push_ok")
+			x.event("tag_push_ok")
+			x.remoteTags[name] = at
+			x.verify("tag push", st, nil)
+		} else {
+			res.Probe("tag_push_failed")
+			x.event("tag_push_failed")
+			x.verify("failed tag push", st, map[string][]string{"tag:" + name: {at}})
+		}
+		x.crashImages(st, positions, x.remRel, false, nil)
+	case "backup", "restore":
+		bkRel := "backups/" + d.name
+		bkDir := filepath.Join(x.root, "backups", d.name)
+		if _, ok := x.backedUp[d.name]; !ok {
+			os.MkdirAll(bkDir, 0o755)
+			if _, err := s.Exec(x.ctx, "CALL dolt_backup('add', 'bk', 'file://"+bkDir+"')"); err != nil {
+				res.Probe("backup_add_refused")
+				return
+			}
+			x.backedUp[d.name] = nil
+		}
+		if st.Op == "backup" {
+			want := copyMap(d.heads)
+			disarm := x.armFault(st.Fault, bkRel)
+			_, err := s.Exec(x.ctx, "CALL dolt_backup('sync', 'bk')")
+			fired, positions := disarm()
+			x.noteFault(st.Fault, fired)
+			if err == nil {
+				res.Probe("transfer_ok")
+				res.Probe("backup_sync_ok")
+				x.event("backup_sync_ok")
+				x.backedUp[d.name] = want
+			} else {
+				res.Probe("backup_sync_failed")
+				x.event("backup_sync_failed")
+			}
+			// whatever happened, the backup shows the heads of its last successful sync or of this
+			// one, and every ref in it has its data
+			bdb, oerr := x.openStoreDir(bkDir, false)
+			if oerr != nil {
+				if x.backedUp[d.name] != nil {
+					res.Violate("backup-unreadable", "op=backup", x.step, "%s", firstLine(oerr))
+				}
+			} else {
+				heads, _ := branchHeads(x.ctx, bdb)
+				for _, br := range sortedBranches(heads) {
+					prev := ""
+					if p := x.backedUp[d.name]; p != nil {
+						prev = p[br]
+					}
+					if heads[br] != want[br] && heads[br] != prev {
+						res.Violate("backup-shows-invented-head", "op=backup", x.step, "the backup of %s has branch %s at %s: neither this sync's %q nor the last successful sync's %q", d.name, br, heads[br], want[br], prev)
+					}
+				}
+				if err == nil {
+					for _, br := range sortedBranches(want) {
+						if heads[br] != want[br] {
+							res.Violate("backup-misses-branch", "op=backup", x.step, "after a successful dolt_backup sync of %s the backup has branch %s at %q, the database has it at %s", d.name, br, heads[br], want[br])
+						}
+					}
+				}
+				if vs, ok := bdb.ValueReadWriter().(*types.ValueStore); ok {
+					if n, bad, werr := walkStore(x.ctx, vs); werr == nil && len(bad) > 0 {
+						res.Violate("ref-points-at-missing-data", "store=backup", x.step, "a walk from the root of the backup of %s (%d chunks read) finds: %s", d.name, n, strings.Join(bad, "; "))
+					}
+				}
+				bdb.Close()
+			}
+			x.crashImages(st, positions, bkRel, false, nil)
+			return
+		}
+		if x.backedUp[d.name] == nil {
+			return // nothing to restore yet
+		}
+		x.nRestore++
+		name := fmt.Sprintf("r%d", x.nRestore)
+		disarm := x.armFault(st.Fault, "test/"+name)
+		_, err := s.Exec(x.ctx, "CALL dolt_backup('restore', 'file://"+bkDir+"', '"+name+"')")
+		fired, _ := disarm()
+		x.noteFault(st.Fault, fired)
+		if err != nil {
+			res.Probe("backup_restore_failed")
+			x.event("backup_restore_failed")
+			return
+		}
+		res.Probe("transfer_ok")
+		res.Probe("backup_restore_ok")
+		x.event("backup_restore_ok")
+		rdbx := &remDB{name: name, dir: "test/" + name}
+		rs := x.session(rdbx)
+		if rs == nil {
+			return
+		}
+		rows, rerr := rs.Exec(x.ctx, "SELECT name, hash FROM dolt_branches")
+		if rerr != nil {
+			res.Violate("restored-backup-unreadable", "op=restore", x.step, "%s", firstLine(rerr))
+		} else {
+			got := map[string]string{}
+			for _, r := range rows {
+				got[r[0]] = r[1]
+			}
+			for _, br := range sortedBranches(x.backedUp[d.name]) {
+				if got[br] != x.backedUp[d.name][br] {
+					res.Violate("restored-backup-differs", "op=restore", x.step, "database %s restored from the backup of %s has branch %s at %q; the backup was synced at %s", name, d.name, br, got[br], x.backedUp[d.name][br])
+				}
+			}
+		}
+		if _, v := dbfactory.DsimSingletonVRW("/test/" + name + "/.dolt/noms"); v != nil {
+			if vs, ok := v.(*types.ValueStore); ok {
+				if n, bad, werr := walkStore(x.ctx, vs); werr == nil && len(bad) > 0 {
+					res.Violate("ref-points-at-missing-data", "store=restored", x.step, "a walk from the root of the restored database %s (%d chunks read) finds: %s", name, n, strings.Join(bad, "; "))
+				}
+			}
+		}
+		rs.End()
+		s.Exec(x.ctx, "DROP DATABASE `"+name+"`")
 	case "clone":
 		x.nClone++
 		name := fmt.Sprintf("c%d", x.nClone)
